@@ -11,6 +11,8 @@ func init() {
 			unusedResultRules(c, "C08")
 			// HandleClose relies on CheckCloseFrameData for the validity of the code
 			c03CloseData(c)
+			// what the handlers read is what NextFrame installs (unmasked, limited to the frame)
+			readerNextFrameRules(c, "C08")
 		},
 	})
 }
